@@ -1,6 +1,8 @@
 (* C08 — Equivalence and containment obey their algebraic laws (on parsed expressions; the
-   functions take no symbol table, so the answer cannot depend on the Licensing instance). *)
-Require Import Model.Base Model.Expr Model.Simplify Proofs.Equiv.
+   functions take no symbol table, so the answer cannot depend on the Licensing instance).
+   Expressions related by the rewrites of C07 (operands reordered / repeated, regrouped by
+   associativity, joined by an absorbed operand, anywhere, in any sequence) are equivalent. *)
+Require Import Model.Base Model.Expr Model.Simplify Proofs.Equiv Proofs.Normal.
 
 Theorem C08_equiv_refl : forall a, is_equivalent a a = true.
 Proof. exact equiv_refl. Qed.
@@ -38,3 +40,7 @@ Print Assumptions C08_with_contains_parts.
 Theorem C08_contains_atoms : forall a b, contains a b = true -> incl (literals (simplify b)) (atoms_dec a).
 Proof. exact contains_atoms. Qed.
 Print Assumptions C08_contains_atoms.
+
+Theorem C08_rewritten_variants_equivalent : forall e e', rewrites e e' -> is_equivalent e e' = true.
+Proof. exact rewrites_equivalent. Qed.
+Print Assumptions C08_rewritten_variants_equivalent.
